@@ -122,6 +122,7 @@ const (
 	ClassExt
 	ClassPathHostile // not a single valid path element
 	ClassLong        // long names around buffer boundaries (not for filesystem workloads)
+	ClassCase        // names that differ only by letter case / are equal under Unicode case folding
 	NumClasses
 )
 
@@ -133,6 +134,7 @@ var (
 	controlNames = []string{"a\x00b", "\x01", "a\x07", "\x1b[31mx", "a\x7f", "\x08a", "a\x0bb", "a\x0cb", "a\rb", "\x1f", "a\x00"}
 	quoteNames   = []string{"\"", "'", ":", "#", "\\", "{", "[", "null", "true", "1e3", "~", "- a", "key: v", "a: b", "\"q\"", "'s'", "a\\nb", "{a}", "[1]", "&x", "*x", "!t", "%d", "@", "`", "|", ">", "0x1f", "1", "-1", ".5", "no", "yes", "y", "N", "on", "off", "2001-01-01", "a #c", "a,b", "?", "= x", "[[t]]", "a = 1", "\"\"\"", "'''", "1_000", "inf", "nan", "<<", "=", "\\u0041"}
 	extNames     = []string{"proj.tar.gz", "x.d.ts", "a.gz", "tar.gz", "b.min.css", "x.go", "Makefile", ".go", "a.go.bak", "main.go", "README.md", "go", "a.mod", "o", "x.o", "a.", ".", "..go", "Makefile.go", "lego"}
+	caseNames    = []string{"readme.md", "README.MD", "Readme.md", "README.md", "makefile", "Makefile", "MAKEFILE", "k", "K", "\u212a", "s", "S", "\u017f", "σ", "ς", "Σ", "x.go", "x.GO", "X.go", "docs", "Docs", "DOCS", "a.GZ", "a.gz", "A.gz", "ǆ", "ǅ", "Ǆ", "b", "B"}
 	hostileNames = []string{"..", ".", "a/b", "/abs", "../x", "a/../../x", "a/", "/", "./a", "a//b", "../../e"}
 )
 
@@ -154,6 +156,8 @@ func NameOf(r *Rand, class int) string {
 		return r.Pick(extNames)
 	case ClassPathHostile:
 		return r.Pick(hostileNames)
+	case ClassCase:
+		return r.Pick(caseNames)
 	case ClassLong:
 		n := []int{255, 256, 300, 1023, 1024, 4095, 4096, 4097, 5000, 9000}[r.Intn(10)]
 		unit := []string{"x", "ab", "日", "é-", "w "}[r.Intn(5)]
